@@ -15,7 +15,7 @@ open Btc
 
 /-- `guard`: a fixed-size object is read whole first (`stream.read(n)`, "invalid decoded length"). -/
 def Codec.guardLen (c : Codec α) (n : Nat) (e : Err) : Codec α :=
-  { c with parse := fun b => if b.length < n then .error e else c.parse b }
+  { c with parse := fun b => if (b.take n).length < n then .error e else c.parse b }
 
 -- ------------------------------------------------------------------ OutPoint (tx/out_point.py)
 structure OutPoint where
